@@ -309,6 +309,7 @@ def enumeration_check(cname, backend, seed, n_random):
             real_supp = c.support(u)
             for care in (None, tuple(real_supp), rnd.choice(subsets), tuple(names)):
                 n += 1
+                care_raw = care
                 if care is not None and not set(care) >= real_supp:
                     care = tuple(set(care) | real_supp)
                 over = sorted(real_supp if care is None else set(care) | real_supp)
@@ -330,8 +331,22 @@ def enumeration_check(cname, backend, seed, n_random):
                     care_arg = set(care_arg)
                 try:
                     got = list(c.pick_iter(u, care_vars=care_arg))
-                    cnt = c.count(u, care_vars=care_arg)
                     one = c.pick(u, care_vars=care_arg)
+                    if care_raw and trial % 3 == 1:
+                        # a caller that keeps ONE set of care variables (not necessarily containing the
+                        # support) and uses it again afterwards: the number of assignments of TRUE over
+                        # that set is the size of the product of those variables' ranges
+                        mine = set(care_raw)
+                        list(c.pick_iter(u, care_vars=mine))
+                        c.pick(u, care_vars=mine)
+                        size = 1
+                        for nm in set(care_raw):
+                            size *= len(doms[nm])
+                        again = c.count(c.true, care_vars=mine)
+                        if again != size and len(fails) < 4:
+                            fails.append(dict(name='count(TRUE) over the caller\'s set of care variables, used before in pick_iter / pick of another predicate, is the size of the product of their ranges',
+                                              care_vars_given=str(sorted(care_raw)), care_vars_afterwards=str(sorted(mine)), count=int(again), expected=size))
+                    cnt = c.count(u, care_vars=care_arg)
                 except Exception as e:
                     fails.append(dict(name='pick_iter / count / pick run without error', error=repr(e), care=str(care)))
                     continue
